@@ -112,9 +112,37 @@ def translate(repo: str):
         for c in ast.walk(fn):
             if isinstance(c, ast.Call) and isinstance(c.func, ast.Attribute) and c.func.attr == "join" and (c.args or c.keywords):
                 tracked = False                          # a bounded join may return before the writer has run
-    appends = [c for c in ast.walk(stree) if isinstance(c, ast.Call) and isinstance(c.func, ast.Attribute) and c.func.attr == "append"
-               and "invocation_threads" in ast.dump(c.func.value)]
-    if len(appends) < 2:
+    # every writer thread created in the class is appended to invocation_threads[...] before it is started, in the function that
+    # creates it; add_history and add_histories each create their writer there or through helper methods of the class
+    cls = [n for n in stree.body if isinstance(n, ast.ClassDef) and n.name == "BaseStateBackend"][0]
+    methods = {m.name: m for m in cls.body if isinstance(m, ast.FunctionDef)}
+    has_site: dict[str, bool] = {}
+    for name, m in methods.items():
+        creations = [c for c in ast.walk(m) if isinstance(c, ast.Call) and (
+            (isinstance(c.func, ast.Attribute) and c.func.attr == "Thread") or (isinstance(c.func, ast.Name) and c.func.id == "Thread"))]
+        has_site[name] = bool(creations)
+        bound = {id(a.value): a.targets[0].id for a in ast.walk(m) if isinstance(a, ast.Assign) and len(a.targets) == 1
+                 and isinstance(a.targets[0], ast.Name)}
+        for c in creations:
+            var = bound.get(id(c))
+            if var is None:
+                tracked = False                          # a writer that is not bound to a name cannot have been tracked
+                continue
+            app = [x.lineno for x in ast.walk(m) if isinstance(x, ast.Call) and isinstance(x.func, ast.Attribute) and x.func.attr == "append"
+                   and "invocation_threads" in ast.dump(x.func.value) and len(x.args) == 1 and isinstance(x.args[0], ast.Name) and x.args[0].id == var]
+            starts = [x.lineno for x in ast.walk(m) if isinstance(x, ast.Call) and isinstance(x.func, ast.Attribute) and x.func.attr == "start"
+                      and isinstance(x.func.value, ast.Name) and x.func.value.id == var]
+            if len(app) != 1 or len(starts) != 1 or not (c.lineno <= app[0] < starts[0]):
+                tracked = False
+
+    def reaches(name: str, depth: int = 0) -> bool:
+        if name not in methods or depth > 3:
+            return False
+        if has_site[name]:
+            return True
+        return any(reaches(c.func.attr, depth + 1) for c in ast.walk(methods[name]) if isinstance(c, ast.Call)
+                   and isinstance(c.func, ast.Attribute) and isinstance(c.func.value, ast.Name) and c.func.value.id == "self")
+    if not (reaches("add_history") and reaches("add_histories")):
         tracked = False
     f = {"history_writers_stay_tracked": tracked, "mem_history_append_atomic": append_atomic, "history_after_transition": after, "history_uses_returned_record": uses, "history_names_requester": names_req,
          "registration_writes_history": regok}
